@@ -254,9 +254,26 @@ func c18Errors(c *fw.C, scratch string) {
 	payload, _ := genPayload(r, "quick")
 	d, _ := os.MkdirTemp(scratch, "c18e-")
 	defer os.RemoveAll(d)
-	kind := (c.Idx / 4) % 7
+	kind := (c.Idx / 4) % 8
 	c.Obs("error_cases", 1)
 	switch kind {
+	case 7: // the OS refuses part of the data (file size limit): the write error must come back
+		L := r.Range(2, 9000)
+		N := r.Intn(L)
+		seed := r.U64() % 1000000
+		c.Desc("file backend, write of %d bytes refused after byte %d (EFBIG)", L, N)
+		res := runChild([]string{d, fmt.Sprint(L), fmt.Sprint(seed), fmt.Sprint(N), "error"}, nil)
+		if res.exit == 2 || res.signaled {
+			c.Obs("child_setup_failed", 1)
+			return
+		}
+		if res.exit == 0 {
+			pl := c17Payload(L, seed)
+			got, err := file.NewPersistForPath(d).Load(bg, ref.Name(pl))
+			if err != nil || !bytes.Equal(got, pl) {
+				c.Violation("C18.backend_errors_returned", map[string]string{"backend": "file", "fault": "write_refused"}, "the OS refused the write of a %d-byte node after byte %d, yet Store reported success (Load now gives %d bytes, err=%v)", L, N, len(got), err)
+			}
+		}
 	case 0: // file backend rooted at a regular file
 		f := filepath.Join(d, "plainfile")
 		os.WriteFile(f, []byte("x"), 0644)
